@@ -149,7 +149,14 @@ func genApp(r *core.RNG, a appType) appPayload {
 				p.Status.AnsGroupMask[i] = true
 				var da lorawan.DevAddr
 				r.Fill(da[:])
-				p.Items = append(p.Items, multicastsetup.McGroupStatusAnsPayloadItem{McGroupID: uint8(r.Intn(4)), McAddr: da})
+				it := multicastsetup.McGroupStatusAnsPayloadItem{McGroupID: uint8(r.Intn(4)), McAddr: da}
+				if len(p.Items) > 0 && r.Chance(1, 4) {
+					it = p.Items[r.Intn(len(p.Items))] // the same group / address reported twice is still two entries on the wire
+					if r.Bool() {
+						it.McGroupID = uint8(r.Intn(4))
+					}
+				}
+				p.Items = append(p.Items, it)
 			}
 		}
 		return p
